@@ -473,10 +473,34 @@ def t_scatter_static(b, cur, cs):
     return b.node("ScatterND", [cur, name, upd], attrs), cs
 
 
+def t_noop_arith(b, cur, cs):
+    """x*1, x+0, x-0, x/1 with the neutral constant of shape [], [1] or [1,1]; x of rank 0 (a full reduction,
+    also over symbolic dims) or the current tensor (rank >= 1, control).  A one-element constant of rank >= 1
+    still broadcasts: the result has at least that rank."""
+    rng = b.rng
+    if rng.random() < 0.6:
+        x = b.node("ReduceSum", [cur], {"keepdims": 0})       # all axes -> rank 0
+    else:
+        x = cur
+    op, val = rng.choice([("Mul", 1.0), ("Add", 0.0), ("Sub", 0.0), ("Div", 1.0)])
+    cshape = rng.choice([[], [1], [1], [1, 1]])
+    name = b.fresh("c")
+    arr = np.full(cshape, val, dtype=np.float32)
+    if rng.random() < 0.5:
+        b.inits.append(numpy_helper.from_array(arr, name))
+    else:
+        b.nodes.append(helper.make_node("Constant", [], [name], value=numpy_helper.from_array(arr, name + "_v")))
+    ins = [x, name] if (op in ("Sub", "Div") or rng.random() < 0.5) else [name, x]
+    o = b.node(op, ins)
+    b.outputs.append(o)
+    b.out_elem[o] = TensorProto.FLOAT
+    return cur, cs
+
+
 TEMPLATES = [
     (t_reshape_own, 3), (t_expand_own, 3), (t_pieces_reshape, 4), (t_abs_chain, 3), (t_size, 1),
     (t_flatten, 2), (t_slice, 2), (t_cast_out, 1), (t_squeeze_piece, 2), (t_identity, 1),
-    (t_concat_zero, 1), (t_materialize, 2), (t_expand_binary, 3), (t_shape_attr, 2), (t_scatter_all, 2), (t_scatter_static, 2),
+    (t_concat_zero, 1), (t_materialize, 2), (t_expand_binary, 3), (t_shape_attr, 2), (t_scatter_all, 2), (t_scatter_static, 2), (t_noop_arith, 3),
 ]
 
 
